@@ -24,7 +24,8 @@ LEVEL_TEXT = ("All 10 Channel subclasses over their documented parameter grids (
               "orders on default.mixed yields a Hermitian, trace-1, PSD density matrix equal (1e-9) to mc.refsim.run_dm.")
 LEVEL_NOTE = ("Reference Kraus sums use the channel's own kraus_matrices() (the Kraus *definition*), gate matrices from mc.refgates. "
               "Not decided: parameters between grid points, circuits longer than 3, >3 wires (the >7-wire tensordot branch), "
-              "non-numpy interfaces, finite shots.")
+              "non-numpy interfaces, finite shots. Genuine ThermalRelaxationError defects (T2 > T1 with tg >= 5 T1; exp underflow for tg >= 700 T1) are recorded in "
+              "known_findings/C28.json.")
 DESIGN_REF = "5.5 C28"
 START = "fork"
 PARALLEL = True
@@ -86,7 +87,12 @@ def check_kraus(spec):
     S = sum(K.conj().T @ K for K in Ks)
     dev = float(np.max(np.abs(S - np.eye(d))))
     if not dev <= TOL_K:
-        return bad(f"kraus-incomplete:{name}", {"params": params, "hyper": hyper, "sum": S, "maxdev": dev}, "identity")
+        regime = ""
+        if name == "ThermalRelaxationError":  # the two documented branches x relaxation strength tg / T1
+            _, t1, t2, tg = params
+            regime = (":T2>T1" if t2 > t1 else ":T2<=T1") + (":tg<5*T1" if tg < 5 * t1 else ":5*T1<=tg<700*T1" if tg < 700 * t1
+                                                               else ":tg>=700*T1(exp underflow)")
+        return bad(f"kraus-incomplete:{name}{regime}", {"params": params, "hyper": hyper, "sum": S, "maxdev": dev}, "identity")
     strength = [p for p in params if isinstance(p, float)]
     fp = [len(Ks)] + [round(float(np.linalg.norm(K)), 6) for K in Ks]
     return ok(outcome=[name, fp], nontrivial=any(0 < p for p in strength) or name == "QubitChannel")
